@@ -23,7 +23,7 @@ pub const INFO: PropInfo = PropInfo {
         "a malformed request in the middle is smaller than the 1 KiB read buffer, so that one read consumes it",
         "request heads stay below 1 KiB",
     ],
-    expected_probes: &["c05.close_honoured", "c05.request_after_close_unanswered", "c05.malformed_in_middle", "c05.ctx_set_then_later_request", "c05.param_then_no_param", "c05.body_over_buffer", "c05.chaos_connection_alongside", "c05.short_reads_on_persistent"],
+    expected_probes: &["c05.close_honoured", "c05.request_after_close_unanswered", "c05.malformed_in_middle", "c05.ctx_set_then_later_request", "c05.param_then_no_param", "c05.body_over_buffer", "c05.chaos_connection_alongside", "c05.short_reads_on_persistent", "c05.request_sent_before_previous_response"],
 };
 
 #[derive(Clone, Debug, Serialize, Deserialize)]
@@ -36,13 +36,18 @@ pub struct ConnPlan {
     /// (the fresh reference connections read whole segments)
     #[serde(default)]
     pub short_reads: bool,
+    /// nowait[k]: request k+1 is sent right behind request k, without waiting for response k (still one segment per
+    /// request; the server may well find both in one read)
+    #[serde(default)]
+    pub nowait: Vec<bool>,
 }
 /// a misbehaving connection running next to the observed ones (fault isolation between sessions)
 #[derive(Clone, Debug, Serialize, Deserialize)]
 pub struct ChaosPlan {
     pub start_ms: u64,
     /// 0: part of a request, then a connection error; 1: a request, error before the response is read;
-    /// 2: announces a body, sends half of it, error; 3: connect and close at once; 4: a request, then the client stops reading and goes away
+    /// 2: announces a body, sends half of it, error; 3: connect and close at once; 4: a request, then the client stops reading and goes away;
+    /// 5: no connection — the listener's `accept` fails once
     pub kind: u8,
     /// error kind index (see c02::err_kind)
     pub err: u8,
@@ -72,9 +77,11 @@ pub fn generate(_cfg: &RunCfg, _out: &mut Outcome) -> Scenario {
     for c in 0..n_conns {
         let reqs = sess::gen_sequence(c, &SeqOpts { min: 2, max: if c == 0 { 12 } else { 5 }, allow_malformed: true, allow_close: true, max_body: 3000, allow_delay: true });
         let think_ms = reqs.iter().map(|_| t::pick(&[0u64, 0, 1, 30, 2000])).collect();
-        conns.push(ConnPlan { reqs, think_ms, send_after_close: t::chance(1, 2), short_reads: t::chance(1, 4) });
+        let eager = t::chance(1, 3);
+        let nowait = reqs.iter().map(|r| eager && r.malformed.is_none() && !r.wants_close() && t::chance(1, 2)).collect();
+        conns.push(ConnPlan { reqs, think_ms, send_after_close: t::chance(1, 2), short_reads: t::chance(1, 4), nowait });
     }
-    let chaos = (0..t::weighted(&[3, 2, 1])).map(|_| ChaosPlan { start_ms: t::pick(&[0u64, 0, 1, 30, 2000]), kind: t::draw(5) as u8, err: t::draw(4) as u8, delay_ms: t::pick(&[0u64, 1, 50]) }).collect();
+    let chaos = (0..t::weighted(&[3, 2, 1])).map(|_| ChaosPlan { start_ms: t::pick(&[0u64, 0, 1, 30, 2000]), kind: t::draw(6) as u8, err: t::draw(4) as u8, delay_ms: t::pick(&[0u64, 1, 50]) }).collect();
     Scenario { conns, chaos }
 }
 
@@ -122,6 +129,9 @@ fn execute(sc: &Scenario, out: &mut Outcome) {
     out.scenario = serde_json::to_value(sc).unwrap_or(serde_json::Value::Null);
     out.scenario_hash = rt::fnv64(serde_json::to_string(sc).unwrap_or_default().as_bytes());
 
+    if sc.conns.iter().any(|c| c.nowait.iter().any(|x| *x)) {
+        out.probe("c05.request_sent_before_previous_response");
+    }
     if sc.conns.iter().any(|c| c.short_reads) {
         out.probe("c05.short_reads_on_persistent");
     }
@@ -134,18 +144,28 @@ fn execute(sc: &Scenario, out: &mut Outcome) {
         simcore::spawn_task(format!("persist{ci}"), "client", async move {
             let Ok(mut c) = Client::connect(rt::ADDR, ConnCfg { short_reads: p.short_reads, ..ConnCfg::default() }).await else { return };
             let mut k = 0;
+            let mut sent = 0;
             while k < p.reqs.len() {
                 let it = &p.reqs[k];
-                if p.think_ms[k] > 0 {
-                    sleep(p.think_ms[k] * MS).await;
+                if sent <= k {
+                    if p.think_ms[k] > 0 {
+                        sleep(p.think_ms[k] * MS).await;
+                    }
+                    c.send(&it.bytes(), 0);
+                    sent = k + 1;
                 }
-                c.send(&it.bytes(), 0);
+                while sent < p.reqs.len() && p.nowait.get(sent - 1).copied().unwrap_or(false) {
+                    c.send(&p.reqs[sent].bytes(), 0);
+                    sent += 1;
+                    simcore::with(|w| w.count("fault.request_sent_before_previous_response"));
+                }
                 let r = c.recv(it.is_head(), DEFAULT_TIMEOUT).await;
                 let ok = r.is_ok();
                 {
                     let mut ob = o.borrow_mut();
                     ob.persist.push(r);
-                    ob.stray.push(c.buf.len());
+                    // with later requests already on the wire, their responses may legitimately be behind this one
+                    ob.stray.push(if sent > k + 1 { 0 } else { c.buf.len() });
                 }
                 if !ok {
                     return;
@@ -184,6 +204,13 @@ fn execute(sc: &Scenario, out: &mut Outcome) {
         simcore::spawn_task(format!("chaos{xi}"), "client", async move {
             if ch.start_ms > 0 {
                 sleep(ch.start_ms * MS).await;
+            }
+            if ch.kind == 5 {
+                // not a connection at all: the listener's accept fails (a failing system call); sessions must not notice
+                simcore::with(|w| {
+                    w.inject_accept_error(rt::ADDR, if ch.err % 2 == 0 { std::io::ErrorKind::ConnectionAborted } else { std::io::ErrorKind::Other });
+                });
+                return;
             }
             let Ok(mut c) = Client::connect(rt::ADDR, ConnCfg { window: 64, ..ConnCfg::default() }).await else { return };
             let kind = super::c02::err_kind(ch.err);
